@@ -545,7 +545,24 @@ func (c *fnCtx) lin0(v ssa.Value) Lin {
 		}
 		return c.atom(v)
 	case *ssa.Extract:
-		return c.atom(v)
+		r := c.atom(v)
+		// io.Reader / io.Writer contract (trusted): Read(p) / Write(p) report 0 ≤ n ≤ len(p)
+		if call, ok := x.Tuple.(*ssa.Call); ok && x.Index == 0 {
+			var buf ssa.Value
+			if call.Call.IsInvoke() && len(call.Call.Args) == 1 {
+				if m := call.Call.Method.Name(); m == "Read" || m == "Write" {
+					buf = call.Call.Args[0]
+				}
+			} else if g := calleeOf(call).Static; g != nil && !c.e.w.InModule(g) && g.Signature.Recv() != nil && len(call.Call.Args) == 2 && (g.Name() == "Read" || g.Name() == "Write") {
+				// a standard-library reader/writer (bufio.Reader, net.TCPConn, …)
+				buf = call.Call.Args[1]
+			}
+			if buf != nil && hasLen(buf.Type()) {
+				c.addDef(leq(linConst(0), r, "io contract: n ≥ 0"))
+				c.addDef(leq(r, c.linLen(buf), "io contract: n ≤ len(p)"))
+			}
+		}
+		return r
 	}
 	if isIntType(v.Type()) {
 		return c.atom(v)
@@ -677,6 +694,12 @@ func (c *fnCtx) linLen0(v ssa.Value) Lin {
 			p := f.Pkg.Pkg.Path()
 			if (p == "bytes" || p == "slices" || p == "strings") && f.Name() == "Clone" && len(x.Call.Args) == 1 {
 				return c.linLen(x.Call.Args[0])
+			}
+		}
+		if calleeOf(x).Builtin == "append" && len(x.Call.Args) == 2 {
+			// len(append(a, b...)) = len(a) + len(b)
+			if s, ok := c.linLen(x.Call.Args[0]).add(c.linLen(x.Call.Args[1])); ok {
+				return s
 			}
 		}
 	}
